@@ -10,6 +10,9 @@ pub struct SearchTimer {
     /// Deterministic deadline expressed in nodes (replaces the wall clock when set).
     #[cfg(flounder_verif)]
     pub verif_node_limit: Option<u64>,
+    /// Deterministic deadline expressed in polls: the first `n` polls return false, later ones true.
+    #[cfg(flounder_verif)]
+    pub verif_poll_limit: Option<u64>,
     #[cfg(flounder_verif)]
     pub verif_polls: std::cell::Cell<u64>,
     #[cfg(flounder_verif)]
@@ -27,6 +30,8 @@ impl SearchTimer {
             nodes_searched: 0,
             #[cfg(flounder_verif)]
             verif_node_limit: None,
+            #[cfg(flounder_verif)]
+            verif_poll_limit: None,
             #[cfg(flounder_verif)]
             verif_polls: std::cell::Cell::new(0),
             #[cfg(flounder_verif)]
@@ -86,7 +91,15 @@ impl SearchTimer {
     pub fn should_stop(&self) -> bool {
         #[cfg(flounder_verif)]
         {
-            self.verif_polls.set(self.verif_polls.get() + 1);
+            let poll_index = self.verif_polls.get();
+            self.verif_polls.set(poll_index + 1);
+            if let Some(limit) = self.verif_poll_limit {
+                let stop = poll_index >= limit;
+                if stop {
+                    self.verif_stopped.set(true);
+                }
+                return stop;
+            }
             if let Some(limit) = self.verif_node_limit {
                 let stop = self.nodes_searched >= limit;
                 if stop {
